@@ -147,7 +147,7 @@ theorem reread_fixed (reg : Registry) (r : Record) (p : Bytes) (hw : Writable re
 /-- the byte fixed point for a whole stream: the records that were read, written again under any
 registry that writes the same text (the one the reader ended with, for instance) -/
 theorem writeAll_readBack (a b : Registry) (h : sameText a b) (rs : List (Record × Bytes))
-    (hall : ∀ x ∈ rs, x.1.origin = .residues x.2 ∧ x.2.length < 10 ^ 9 ∧ tableDistinct x.1.table = true) :
+    (hall : ∀ x ∈ rs, x.1.origin = .residues x.2 ∧ x.2.length < 10 ^ 9 ∧ tableAdjacent x.1.table = true) :
     writeAll b (rs.map fun x => readBack a x.1 x.2) = writeAll a (rs.map (·.1)) := by
   induction rs with
   | nil => rfl
